@@ -77,9 +77,11 @@ def mcmcRoutine (cfg fixed : Config) (burn : List StepDraw) (thins : List (List 
 
 /-! ## `_deg_seq_to_dict`, `_extract_hye`, `_match_sequences`
 
-`nodes_with_deg : {degree: set of nodes}` is a bucket index of the map node ↦ residual degree.  The
-model keeps the map itself (`resid : List Nat`, index = node) and derives the buckets; stale empty
-buckets of the Python dict (they only cause draws of size 0) have no counterpart. -/
+`nodes_with_deg : {degree: set of nodes}` is modelled by its **key list** (`keys`, insertion-ordered, it
+decides which degrees the loop visits and whether `nodes_with_deg[0]` exists) together with the map
+node ↦ residual degree (`resid : List Nat`, index = node) from which the sets are derived
+(`bucket resid d`; `C16_degToDict`: for the initial dictionary these are exactly its sets).  A key
+whose set has become empty stays a key, as in the Python: the loop visits it and draws 0 nodes. -/
 
 /-- `_deg_seq_to_dict`: insertion-ordered `{deg: nodes}` -/
 def degToDict (degSeq : List Nat) : List (Nat × List Nat) :=
@@ -89,22 +91,24 @@ def degToDict (degSeq : List Nat) : List (Nat × List Nat) :=
 def bucket (resid : List Nat) (d : Nat) : List Nat :=
   (List.range resid.length).filter (fun n => resid[n]? == some d)
 
-/-- `sorted((deg for deg in nodes_with_deg if deg > 0), reverse=True)` (non-empty buckets) -/
-def posDegs (resid : List Nat) : List Nat :=
-  ((List.range (resid.foldl max 0 + 1)).reverse).filter (fun d => 0 < d && resid.contains d)
+/-- `sorted((deg for deg in nodes_with_deg.keys() if deg > 0), reverse=True)` -/
+def posDegs (keys : List Nat) : List Nat :=
+  ((List.range (keys.foldl max 0 + 1)).reverse).filter (fun d => 0 < d && keys.contains d)
 
 /-- the `while n_nodes_sampled < hye_size` loop over the descending degrees; returns the chosen
-positive-degree nodes, how many are still missing, and the unused draws -/
+positive-degree nodes, the degrees visited (keys of `nodes_chosen`), how many nodes are still missing, and the
+unused draws -/
 def pickLoop (resid : List Nat) : List Nat → Nat → List (List Nat) →
-    Option (List Nat × Nat × List (List Nat))
-  | _, 0, picks => some ([], 0, picks)
-  | [], need + 1, picks => some ([], need + 1, picks)
+    Option (List Nat × List Nat × Nat × List (List Nat))
+  | _, 0, picks => some ([], [], 0, picks)
+  | [], need + 1, picks => some ([], [], need + 1, picks)
   | d :: ds, need + 1, picks =>
     match picks with
     | [] => none
     | p :: ps =>
       if validPick (bucket resid d) (min (bucket resid d).length (need + 1)) p then
-        (pickLoop resid ds (need + 1 - p.length) ps).map (fun r => (p ++ r.1, r.2.1, r.2.2))
+        (pickLoop resid ds (need + 1 - p.length) ps).map
+          (fun r => (p ++ r.1, d :: r.2.1, r.2.2.1, r.2.2.2))
       else none
 
 /-- lower the degree of one chosen node by one -/
@@ -112,44 +116,56 @@ def decOne (resid : List Nat) (c : Nat) : List Nat := resid.modify c (· - 1)
 /-- the final loop of `_extract_hye` (move every chosen node from bucket `deg` to `deg - 1`) -/
 def decResid (resid : List Nat) (chosen : List Nat) : List Nat := chosen.foldl decOne resid
 
+/-- `d[k] = ...` on the key list -/
+def addKeyN (ks : List Nat) (k : Nat) : List Nat := if ks.contains k then ks else ks ++ [k]
+/-- the final loop creates the key `deg - 1` for every visited degree -/
+def moveKeys (keys visited : List Nat) : List Nat := visited.foldl (fun ks d => addKeyN ks (d - 1)) keys
+
 structure ExtractOut where
   hye : Hye
+  keys : List Nat
   resid : List Nat
   /-- `self.matching_sequences = False` was executed -/
   exhausted : Bool
   picks : List (List Nat)
 
-/-- top-up branch (`force_dim_seq or not force_deg_seq`): add nodes of degree 0 -/
-def extractTopUp (resid : List Nat) (chosen : List Nat) (need : Nat) (picks : List (List Nat)) :
-    Option ExtractOut :=
-  match picks with
-  | [] => none
-  | p :: ps =>
-    if validPick (bucket resid 0) need p then
-      some ⟨chosen ++ p, decResid resid chosen, true, ps⟩
-    else none
+/-- top-up branch (`force_dim_seq or not force_deg_seq`): add nodes of degree 0
+(`nodes_with_deg[0]` must exist: `KeyError` otherwise) -/
+def extractTopUp (keys resid : List Nat) (chosen visited : List Nat) (need : Nat)
+    (picks : List (List Nat)) : Option ExtractOut :=
+  if keys.contains 0 then
+    match picks with
+    | [] => none
+    | p :: ps =>
+      if validPick (bucket resid 0) need p then
+        some ⟨chosen ++ p, moveKeys keys visited, decResid resid chosen, true, ps⟩
+      else none
+  else none
 
 /-- shrink branch (`force_deg_seq and not force_dim_seq`): return what is there; a single node gives the
-empty hyperedge and keeps its degree; nothing at all is `set.union()` without arguments (TypeError) -/
-def extractShrink (resid : List Nat) (chosen : List Nat) (picks : List (List Nat)) :
+empty hyperedge and keeps the dictionary; no positive key at all (`nodes_chosen` empty) is `set.union()`
+without arguments (TypeError) -/
+def extractShrink (keys resid : List Nat) (chosen visited : List Nat) (picks : List (List Nat)) :
     Option ExtractOut :=
-  if chosen.length = 0 then none
-  else if chosen.length = 1 then some ⟨[], resid, true, picks⟩
-  else some ⟨chosen, decResid resid chosen, true, picks⟩
+  if visited.isEmpty then none
+  else if chosen.length = 1 then some ⟨[], keys, resid, true, picks⟩
+  else some ⟨chosen, moveKeys keys visited, decResid resid chosen, true, picks⟩
 
-def extractHye (resid : List Nat) (size : Nat) (forceDeg forceDim : Bool) (picks : List (List Nat)) :
-    Option ExtractOut :=
+def extractHye (keys resid : List Nat) (size : Nat) (forceDeg forceDim : Bool)
+    (picks : List (List Nat)) : Option ExtractOut :=
   if size < 1 then none
   else
-    match pickLoop resid (posDegs resid) size picks with
+    match pickLoop resid (posDegs keys) size picks with
     | none => none
-    | some (chosen, 0, picks') => some ⟨chosen, decResid resid chosen, false, picks'⟩
-    | some (chosen, need + 1, picks') =>
-      if forceDim || !forceDeg then extractTopUp resid chosen (need + 1) picks'
-      else extractShrink resid chosen picks'
+    | some (chosen, visited, 0, picks') =>
+      some ⟨chosen, moveKeys keys visited, decResid resid chosen, false, picks'⟩
+    | some (chosen, visited, need + 1, picks') =>
+      if forceDim || !forceDeg then extractTopUp keys resid chosen visited (need + 1) picks'
+      else extractShrink keys resid chosen visited picks'
 
 /-- state of `_match_sequences` -/
 structure MState where
+  keys : List Nat
   resid : List Nat
   cfg : Config
   /-- `matching_sequences` has not been set to `False` -/
@@ -158,8 +174,8 @@ structure MState where
 
 /-- one pass of the inner loop: extract, keep the hyperedge when `len(new_hye) > 1` -/
 def extractInto (size : Nat) (fd fm : Bool) (st : MState) : Option MState :=
-  (extractHye st.resid size fd fm st.picks).map (fun o =>
-    ⟨o.resid, if 1 < o.hye.length then st.cfg ++ [o.hye] else st.cfg, st.flag && !o.exhausted, o.picks⟩)
+  (extractHye st.keys st.resid size fd fm st.picks).map (fun o =>
+    ⟨o.keys, o.resid, if 1 < o.hye.length then st.cfg ++ [o.hye] else st.cfg, st.flag && !o.exhausted, o.picks⟩)
 
 /-- `for _ in range(dim_seq[hye_size])` -/
 def extractMany (size : Nat) (fd fm : Bool) : Nat → MState → Option MState
@@ -176,7 +192,8 @@ property reaches (both sequences given: `true, true`; none given: `false, false`
 of `force_deg_seq and not force_dim_seq` is not modelled (it references `self.model`). -/
 def matchSequences (degSeq : List Nat) (dimSeq : List (Nat × Nat)) (fd fm : Bool)
     (picks : List (List Nat)) : Option MState :=
-  if fd && !fm then none else matchLoop fd fm dimSeq ⟨degSeq, [], true, picks⟩
+  if fd && !fm then none
+  else matchLoop fd fm dimSeq ⟨AL.keys (degToDict degSeq), degSeq, [], true, picks⟩
 
 /-! ## output stage of `sample` -/
 
